@@ -220,6 +220,9 @@ class Sides:
 
 
 def build_sides():
+    if os.environ.get("LMMX_DEV_EXE"):      # development only: a privately built model driver
+        rc, out, bindir = vplib.cargo_build("lang", ["lmmm_run", "bc_dump"])
+        return Sides(os.environ["LMMX_DEV_EXE"], os.path.join(bindir, "lmmm_run"), os.path.join(bindir, "bc_dump")), None
     rc, out, _ = vplib.coq_make([lmmx.EXTRACT_TARGET], timeout=900)
     if rc != 0:
         return None, "extraction of the reference semantics failed: " + vplib.first_coq_error(out)[:300]
@@ -388,7 +391,7 @@ def run_part(ck, quick=True):
 
     rng = ck.rng.fork("lmmx")
     n_cases, n_samples = (3000, 16) if quick else (24000, 24)
-    cases3 = lmmx_gen.gen_cases(rng, n_cases, n_samples)
+    cases3 = lmmx_gen.gen_cases(rng, n_cases, n_samples, ext=True)
     cases = [(p, rows) for p, rows, _ in cases3]
     mres, ires = sides.run(cases)
     st = {}
